@@ -133,3 +133,51 @@ func HClassTotal(n int, which int) {
 	}
 	vCover("done")
 }
+
+// HUrlLong: obfuscations that push the scheme far into the value (length-cap slips): kind 0: L leading blanks,
+// 1: L NUL / LF bytes after the first scheme character, 2: every character as a zero-padded hex reference,
+// 3: L leading "&#1;" (decoded control characters are skipped like leading white space), 4: L leading bytes >= 0x80, 5: L leading DEL bytes.
+func HUrlLong(sch int, kind int, L int) {
+	scheme := vSchemes[sch]
+	v := ""
+	switch kind {
+	case 0:
+		for i := 0; i < L; i++ {
+			v += vB(vByteIn(" \t\n\r"))
+		}
+		v += vWord(scheme)
+	case 1:
+		v = vWord(scheme[:1])
+		for i := 0; i < L; i++ {
+			v += vB(vByteIn("\x00\x0a"))
+		}
+		v += vWord(scheme[1:])
+	case 2:
+		for i := 0; i < len(scheme); i++ {
+			v += vEnc(scheme[i], 3, 4)
+		}
+	case 3:
+		for i := 0; i < L; i++ {
+			v += "&#1;"
+		}
+		v += vWord(scheme)
+	case 4:
+		for i := 0; i < L; i++ {
+			v += vB(vByteIn("\x80\xa0\xff"))
+		}
+		v += vWord(scheme)
+	case 5:
+		for i := 0; i < L; i++ {
+			v += "\x7f"
+		}
+		v += vWord(scheme)
+	}
+	v += vB(vByteIn("ax1("))
+	vAssert(isBlackURL(v), "script-capable scheme recognised behind a long obfuscation")
+	vAssert(isXSS("<a href=\""+v+"\">", html5FlagsDataState), "URL attribute with the obfuscated scheme is XSS")
+	if kind != 1 {
+		// (an LF inside an unquoted value ends the value, so the NUL/LF family is only checked quoted)
+		vAssert(IsXSS("x\" src="+v), "URL attribute breaking out of a double-quoted value is XSS")
+	}
+	vCover("checked")
+}
